@@ -384,7 +384,7 @@ func c07ResolvedVersion(c *Ctx, pk string) {
 	}
 	bad := 0
 	n := 0
-	for _, b := range fn.Blocks {
+	for _, b := range blocksIP(fn) {
 		for _, in := range b.Instrs {
 			u, ok := in.(*ssa.UnOp)
 			if !ok || u.Op != token.MUL || vstr(u) != "*param:d.multipartVersion" || u.Referrers() == nil {
@@ -748,7 +748,7 @@ func toleratesSentinel(c *Ctx, fn *ssa.Function, e ssa.Value, sentinel string) (
 		return full == sentinel || short(g.Pkg.Pkg.Path())+"."+g.Name() == sentinel
 	}
 	var tests []ssa.Value
-	for _, b := range fn.Blocks {
+	for _, b := range blocksIP(fn) {
 		for _, in := range b.Instrs {
 			switch x := in.(type) {
 			case *ssa.Call:
